@@ -11,6 +11,7 @@ TOKEN_SKIP = sys.intern("SKIP")
 TOKEN_COLON = sys.intern("COLON")
 TOKEN_COMMA = sys.intern("COMMA")
 TOKEN_DDOT = sys.intern("DDOT")
+TOKEN_DDOT_PROPERTY = sys.intern("DDOT_PROPERTY")
 TOKEN_DOT = sys.intern("DOT")
 TOKEN_DOT_INDEX = sys.intern("DINDEX")
 TOKEN_DOT_PROPERTY = sys.intern("DOT_PROPERTY")
